@@ -64,7 +64,7 @@ MANIFEST = dict(
     text="TLC enumerates every interleaving of concurrent claimers of one block with a crash between any two store calls; each "
          "schedule is replayed through the memkv gate on real clients (zero drift: the real client makes exactly the calls I_IPAM "
          "predicts) and every store state of the recorded traces satisfies: at most one confirmed affinity per block, a confirmed "
-         "affinity is what its block records, a block's owner holds a claim; a claim is created pending, confirmed only when the block "
+         "affinity is what its block records (hard), a block's owner holds a claim (soft channel: one known same-host race); a claim is created pending, confirmed only when the block "
          "says so; only an explicit non-mustBeEmpty ReleaseAffinity of the owner may strip a non-empty block.",
     design_ref="3.3 C22",
     technique="TLA+ (P_IPAM, I_IPAM) + TLC exhaustive schedule enumeration; gate-driven replay on the real client; trace validation with TLC",
